@@ -78,6 +78,8 @@ type Cfg struct {
 	TickSkew                                                          int // 1: hosts tick at different rates (drawn per host: 1x .. 8x)
 	PHold                                                             int // per mille of the parks at state machine / engine yield points after which the task is not resumed for a while (a goroutine that lost the CPU, or the race for a mutex, for long)
 	HoldLen                                                           int // longest hold, in steps
+	Ballast                                                           int // 1: every host also runs a single-member ballast shard that keeps the shared snapshot workers busy (see ballast.go)
+	SnapWorkers                                                       int // snapshot workers per NodeHost (default 2)
 	FinalReads                                                        int // 1: in the fair final phase every running replica is asked for a ReadIndex in every round (a read-heavy service: every heartbeat of the leader carries a read confirmation hint)
 	CCWindow                                                          int // per cent of the parks between a membership change's applied index and its raft update (node.ApplyConfigChange) on a non-leader that are held long while the links between that host and the leader are cut: faults aimed at a membership change, as the guidance asks
 }
@@ -105,6 +107,7 @@ type Host struct {
 	removed                 bool
 	selfRemoved             bool
 	crashedBefore           bool
+	ballastStarted          bool
 	stepCovered             int64 // ticks of this host that a completed step of its step worker has certainly handled
 	restartedWhileReceiving bool  // StartReplica ran while a snapshot chunk task of this host was in flight
 	imported                bool
@@ -222,6 +225,8 @@ func drawCfg(ctx *runner.Ctx) Cfg {
 	c.PHold = p("phold", pick(s, 0, 0, 100, 300))
 	c.HoldLen = p("holdlen", pick(s, 100, 30, 300, 800))
 	c.CCWindow = p("ccwindow", 0)
+	c.Ballast = p("ballast", 0)
+	c.SnapWorkers = p("snapworkers", 2)
 	c.FinalReads = p("finalreads", pick(s, 0, 0, 1))
 	if c.Hosts < 1 {
 		c.Hosts = 1
@@ -276,7 +281,7 @@ func (s *Sim) nodeHostConfig(h *Host) config.NodeHostConfig {
 			LogDB:            s.logdbConfig(),
 			LogDBFactory:     &recFactory{inner: tanplugin.Factory, sim: s, host: h.id},
 			Engine: config.EngineConfig{ExecShards: 1, CommitShards: 1, ApplyShards: 1,
-				SnapshotShards: 2, CloseShards: 1},
+				SnapshotShards: uint64(s.cfg.SnapWorkers), CloseShards: 1},
 		},
 	}
 }
@@ -357,6 +362,9 @@ func (s *Sim) boot(h *Host) {
 	h.tr = nh.VerifTransport()
 	s.trToHost[h.tr] = h.id
 	h.started = false
+	if s.cfg.Ballast > 0 {
+		s.startBallast(h)
+	}
 	if h.joined && !h.removed {
 		s.startReplica(h)
 		if h.started {
@@ -1073,6 +1081,9 @@ func (s *Sim) maybeFaults() {
 				}
 			}
 		}
+	}
+	if c.Ballast > 0 && src.Chance(30, 1000) {
+		s.ballastTraffic()
 	}
 	n := len(s.hosts)
 	if n > 1 && src.Chance(c.PPartition, 1000) {
